@@ -372,6 +372,17 @@ func main() {
 		case "adv":
 			ms, _ := strconv.ParseInt(f[1], 10, 64)
 			run.Op(op, ep.doAdv(run, ms))
+		case "qadv":
+			// quiet advance: nothing is due within ms, so the clock just moves — no call into the deadliner,
+			// no event on its goroutine (which sits in its select with whatever it read before)
+			ms, _ := strconv.ParseInt(f[1], 10, 64)
+			if ep.dueWithin(ms) > 0 || ep.addBlocked {
+				run.Op(op, ep.doAdv(run, ms))
+			} else {
+				ep.clock.Advance(time.Duration(ms))
+				run.Count("qadv")
+				run.Op(op, "- []")
+			}
 		default:
 			panic("bad op " + op)
 		}
@@ -444,6 +455,25 @@ func main() {
 				}
 				added = append(added, core.Duty{Slot: slot, Type: core.DutyType(ty)})
 				exec(fmt.Sprintf("add %d %d", slot, ty))
+			case c < 56: // a quiet period, then a registration whose deadline passed during it: must be refused
+				cur := uint64(ep.nowMs() / slotNs)
+				ms := slotNs + int64(rng.Intn(int(2*slotMs)))*1000000
+				if ep.dueWithin(ms) > 0 {
+					break
+				}
+				for try := 0; try < 12; try++ {
+					d := core.Duty{Slot: cur - uint64(rng.Intn(2)), Type: core.DutyType([]int{1, 9, 10, 11, 12, 13}[rng.Intn(6)])}
+					if try > 6 {
+						d = core.Duty{Slot: cur + uint64(rng.Intn(3)) - uint64(spe), Type: core.DutyType([]int{2, 7}[rng.Intn(2)])}
+					}
+					dlm := ep.deadlineMs(d)
+					if dlm > ep.nowMs() && dlm <= ep.nowMs()+ms {
+						exec(fmt.Sprintf("qadv %d", ms))
+						added = append(added, d)
+						exec(fmt.Sprintf("add %d %d", d.Slot, int(d.Type)))
+						break
+					}
+				}
 			case c < 62 && len(added) > 0: // repeat an earlier registration (pending, reported or refused)
 				d := added[rng.Intn(len(added))]
 				exec(fmt.Sprintf("add %d %d", d.Slot, int(d.Type)))
